@@ -145,5 +145,5 @@ pub fn case(tape: &[u8], ctx: &Ctx) -> Outcome {
 }
 
 pub fn property() -> Property {
-    Property { id: "C16", rule: RULE, phases: vec![Phase::Prop { name: "API programs in lock-step with zlib-ng", f: case, quick: 40_000, thorough: 2_000_000, max_tape: 420 }] }
+    Property { id: "C16", rule: RULE, phases: vec![Phase::Prop { name: "API programs in lock-step with zlib-ng", f: case, quick: 300_000, thorough: 5_000_000, max_tape: 420 }] }
 }
